@@ -166,7 +166,7 @@ def no_position(dx: int, nx: int) -> bool:
     return hx.end(len(a.components) == 0)
 
 
-def place_int(w: int, h: int, d: int, x: int, y: int, z: int) -> bool:
+def place_int(w: int, h: int, d: int, x: int, y: int, z: int, x2: int, y2: int) -> bool:
     """
     pre: w >= 0 and h >= 0 and d >= 0
     post: _
@@ -188,6 +188,16 @@ def place_int(w: int, h: int, d: int, x: int, y: int, z: int) -> bool:
         p = a[PositionComponent]
         if raised is not None or p is None or (p.x, p.y, p.z) != (x, y, z) or env.get_agent("a") is not a:
             return hx.end(hx.fail("accepted placement", raised=raised))
+        # placing the same (resident) agent again, anywhere, is rejected and changes nothing - not even its position
+        try:
+            env.add_agent(a, x2, y2, z)
+            return hx.end(hx.fail("a resident agent was placed a second time"))
+        except Exception:
+            pass
+        q = a[PositionComponent]
+        if q is not p or (q.x, q.y, q.z) != (x, y, z) or len(env.agents) != 1:
+            return hx.end(hx.fail("a rejected second placement changed the agent's position", requested=(x2, y2, z),
+                                  before=(x, y, z), after=None if q is None else (q.x, q.y, q.z)))
         env.remove_agent("a")          # leaving the world drops the position
         if PositionComponent in a or env.get_agent("a") is not None:
             return hx.end(hx.fail("leaving the world did not drop the position"))
